@@ -46,8 +46,8 @@ type AExpr struct {
 	// Text: the operand enters as text through toFloat('...') (decimal numbers kept as strings by the host)
 	Text bool   `json:"text,omitempty"`
 	Op   string `json:"op,omitempty"`
-	L   *AExpr `json:"l,omitempty"`
-	R   *AExpr `json:"r,omitempty"`
+	L    *AExpr `json:"l,omitempty"`
+	R    *AExpr `json:"r,omitempty"`
 }
 
 var aPrec = map[string]int{"+": 9, "-": 9, "*": 10, "/": 10, "%": 10}
@@ -258,9 +258,10 @@ var c04Arith = core.Mon(c04, "arith-exact", func(w *core.W, e *AExpr) {
 
 // DataNumCase: a Go numeric data value.
 type DataNumCase struct {
-	Kind string  `json:"kind"` // f64 int int32 int64
+	Kind string  `json:"kind"` // f64 int int32 int64 | dec128 decraw dec60: a *decimal.Big the host built (S = its text)
 	F    float64 `json:"f,omitempty"`
 	I    int64   `json:"i,omitempty"`
+	S    string  `json:"s,omitempty"`
 	// Where the value sits in the caller's data: "" top-level entry, "map" entry of a nested map[string]interface{},
 	// "tmap" element of a map typed by the value's kind, "field" typed struct field, "anyfield" interface{} struct field,
 	// "setvalue" handed over through Runner.SetThisValue (no map of the caller's), "setvalue-after" the same on top of a map
@@ -290,6 +291,8 @@ func (c *DataNumCase) place(gv interface{}) (map[string]interface{}, string) {
 			return map[string]interface{}{"o": map[string]int32{"v": x}}, "o.v"
 		case int64:
 			return map[string]interface{}{"o": map[string]int64{"v": x}}, "o.v"
+		case *decimal.Big:
+			return map[string]interface{}{"o": map[string]*decimal.Big{"v": x}}, "o.v"
 		}
 	case "field":
 		switch x := gv.(type) {
@@ -301,6 +304,8 @@ func (c *DataNumCase) place(gv interface{}) (map[string]interface{}, string) {
 			return map[string]interface{}{"o": numHolder{I32: x}}, "o.I32"
 		case int64:
 			return map[string]interface{}{"o": numHolder{I64: x}}, "o.I64"
+		case *decimal.Big:
+			return map[string]interface{}{"o": struct{ D *decimal.Big }{x}}, "o.D"
 		}
 	case "anyfield":
 		return map[string]interface{}{"o": numHolder{Any: gv}}, "o.Any"
@@ -316,6 +321,22 @@ func (c *DataNumCase) value() (interface{}, string) {
 		return int(c.I), strconv.FormatInt(c.I, 10)
 	case "int32":
 		return int32(c.I), strconv.FormatInt(int64(int32(c.I)), 10)
+	case "dec128":
+		// the library's own widest context
+		d, _ := decimal.WithContext(decimal.Context128).SetString(c.S)
+		return d, c.S
+	case "dec60":
+		// a context of the host's choice, wider than anything the evaluator computes in
+		d, _ := decimal.WithPrecision(60).SetString(c.S)
+		return d, c.S
+	case "decraw":
+		// no context at all: mantissa and scale, the way database drivers hand decimals over
+		dd, _ := ref.ParseDec(c.S)
+		m := new(big.Int).Set(dd.Coef)
+		if dd.Neg {
+			m.Neg(m)
+		}
+		return new(decimal.Big).SetBigMantScale(m, -dd.Exp), c.S
 	default:
 		return c.I, strconv.FormatInt(c.I, 10)
 	}
@@ -335,7 +356,11 @@ var c04Data = core.Mon(c04, "data-entry", func(w *core.W, c *DataNumCase) {
 	}
 	if strings.HasPrefix(c.Where, "setvalue") {
 		// the single-entry setter is an entry point like the map: what it stores is the caller's value
-		v, err, panicked, pv := evalViaSetter(path+" === "+litOf(text)+" ? ["+path+"] : ['differs', "+path+"]", gv, c.Where == "setvalue-after")
+		ssrc := path + " === " + litOf(text) + " ? [" + path + "] : ['differs', " + path + "]"
+		if exp.Digits() > 34 && exp.Neg {
+			ssrc = "[" + path + "]" // (a negated literal is arithmetic: rounded to 34 digits)
+		}
+		v, err, panicked, pv := evalViaSetter(ssrc, gv, c.Where == "setvalue-after")
 		w.Count("data_values_through_setthisvalue")
 		if panicked || err != nil {
 			w.Violation("data-entry", "C04/data-entry-error", c, text, fmt.Sprint(pv, err), "SetThisValue(x, ...) then "+path)
@@ -359,6 +384,8 @@ var c04Data = core.Mon(c04, "data-entry", func(w *core.W, c *DataNumCase) {
 	}
 	if c.Kind == "f64" {
 		w.Count("data_float_cases")
+	} else if strings.HasPrefix(c.Kind, "dec") {
+		w.Count("data_host_decimal_cases")
 	} else {
 		w.Count("data_int_cases")
 	}
@@ -369,6 +396,9 @@ var c04Data = core.Mon(c04, "data-entry", func(w *core.W, c *DataNumCase) {
 	if !got.Finite() || !got.Equal(exp) {
 		w.Violation("data-entry", "C04/data-value:"+c.Kind, c, text, got.String(), fmt.Sprintf("[%s] with the value %s(%s) gives %s", path, c.Kind, text, d.String()))
 		return
+	}
+	if exp.Digits() > 34 && exp.Neg {
+		return // (a negated literal is arithmetic: rounded to 34 digits)
 	}
 	// x === the same number written as a literal
 	lit := strings.TrimPrefix(text, "-")
@@ -823,5 +853,31 @@ func runC04(w *core.W) {
 			_, t := c.value()
 			w.Sample("data", c.Kind+":"+t)
 		}
+	}
+	// 5b. decimals the host built itself: in the library's 34-digit context, in a 60-digit context of its own, and without
+	// any context (mantissa and scale) - they are the numbers written, wherever they sit and under every operator
+	r = w.RNG("host-decimals")
+	for i, n := 0, w.Pick(12000, 200000); i < n; i++ {
+		kind := []string{"dec128", "decraw", "dec60"}[i%3]
+		nd := 1 + r.Intn(34)
+		if kind == "dec60" {
+			nd = 30 + r.Intn(26)
+		} else if r.Intn(3) == 0 {
+			nd = 17 + r.Intn(18)
+		}
+		dig := digits(r, nd)
+		for dig[0] == '0' && nd > 1 {
+			dig = digits(r, nd)
+		}
+		e := r.Intn(12) - 8
+		if r.Intn(4) == 0 {
+			e = r.Intn(80) - 60
+		}
+		text := spellExp(dig, e)
+		if r.Intn(2) == 0 {
+			text = "-" + text
+		}
+		c := &DataNumCase{Kind: kind, S: text, Where: []string{"", "map", "tmap", "field", "anyfield", "setvalue", "setvalue-after"}[(i/3)%7]}
+		c04Data(w, c)
 	}
 }
